@@ -193,17 +193,41 @@ Definition C06cm_schema : schema :=
       [(n_cps, n_pc, n_cqs)] ].
 
 
-(* wf_notrace_b (Store/NoTrace.v, wf_child) admits only unique indexes / system constraints and NO link collections on a
-   child store, and only root stores as fk targets / link ends: these three wirings are outside the side condition of the
-   theorems of Properties/C06.v.  What the check relies on for them is the correspondence of Store/Model.v with boltz
-   (results + all facts after every transaction) plus the no-trace oracle on the implementation's facts. *)
-Example C06cp_schema_outside_wf : wf_notrace_b C06cp_schema = false.
+(* wf_notrace_b (generalised to child-level declarations: link collections whose local / other side is a child store, fk
+   indexes and fk constraints of a child store on its own fields, child stores as fk targets, set indexes of a child store over
+   a string list of its root store) accepts the three wirings: the theorems of Properties/C06.v apply to them. *)
+Example C06cp_schema_wf : wf_notrace_b C06cp_schema = true.
 Proof. vm_compute. reflexivity. Qed.
-Example C06cx_schema_outside_wf : wf_notrace_b C06cx_schema = false.
+Example C06cx_schema_wf : wf_notrace_b C06cx_schema = true.
 Proof. vm_compute. reflexivity. Qed.
-Example C06cm_schema_outside_wf : wf_notrace_b C06cm_schema = false.
+Example C06cm_schema_wf : wf_notrace_b C06cm_schema = true.
 Proof. vm_compute. reflexivity. Qed.
-(* the parts of the check that do not speak about child-level declarations hold *)
-Example child_wirings_names_parents :
-  forallb (fun sch => nt_nodupb (map sd_name sch) && nt_wf_parents sch) [C06cp_schema; C06cx_schema; C06cm_schema] = true.
+
+(* the check still refuses what the proofs cannot do without: a link collection of a child store that is not declared on
+   the other side, a child-level fk index without its delete guard on the target, two set indexes on one string list in a
+   family, a link set of a child store named like a back-reference set kept on the same root entity *)
+Definition drop_links_of (s : name) (sch : schema) : schema :=
+  map (fun d => if str_eqb (sd_name d) s then mkSdef (sd_name d) (sd_parent d) (sd_ext d) (sd_fields d) (sd_sets d) (sd_cons d) [] else d) sch.
+Definition drop_cons_of (s : name) (keep : cons -> bool) (sch : schema) : schema :=
+  map (fun d => if str_eqb (sd_name d) s then mkSdef (sd_name d) (sd_parent d) (sd_ext d) (sd_fields d) (sd_sets d) (filter keep (sd_cons d)) (sd_links d) else d) sch.
+Definition add_cons_to (s : name) (k : cons) (sch : schema) : schema :=
+  map (fun d => if str_eqb (sd_name d) s then mkSdef (sd_name d) (sd_parent d) (sd_ext d) (sd_fields d) (sd_sets d) (sd_cons d ++ [k]) (sd_links d) else d) sch.
+(* rename the local link field [from] of store s to [to], on both sides of the collection *)
+Definition rename_link_of (s : name) (from to : name) (sch : schema) : schema :=
+  map (fun d => mkSdef (sd_name d) (sd_parent d) (sd_ext d) (sd_fields d) (sd_sets d) (sd_cons d)
+                  (map (fun l : name * name * name => match l with (lf, os, of_) =>
+                          if str_eqb (sd_name d) s then (if str_eqb lf from then (to, os, of_) else l)
+                          else if str_eqb os s && str_eqb of_ from then (lf, os, to) else l end) (sd_links d))) sch.
+
+Example child_link_one_sided_refused : wf_notrace_b (drop_links_of n_loc C06cp_schema) = false.
+Proof. vm_compute. reflexivity. Qed.
+Example child_fk_without_guard_refused :
+  wf_notrace_b (drop_cons_of n_loc (fun k => match k with CFkRestrict _ => false | _ => true end) C06cp_schema) = false.
+Proof. vm_compute. reflexivity. Qed.
+Example two_setidx_on_one_list_refused : wf_notrace_b (add_cons_to n_emp (CSetIdx n_skills) C06cp_schema) = false.
+Proof. vm_compute. reflexivity. Qed.
+Example rename_link_harmless : wf_notrace_b (rename_link_of n_mgr n_offices n_x C06cp_schema) = true.
+Proof. vm_compute. reflexivity. Qed.
+(* "reports" is the back-reference set that emp.boss keeps on emp entities; mgr's link set lives in the same entity *)
+Example child_link_named_like_backref_refused : wf_notrace_b (rename_link_of n_mgr n_offices n_reports C06cp_schema) = false.
 Proof. vm_compute. reflexivity. Qed.
